@@ -221,6 +221,21 @@ def add_name_relations(rng, g, behaviour=False):
             _hook(rng, g, ('N', nm), behaviour)
         return
     r = rng.random()
+    if r < 0.25 and g.nts:
+        # two terminals whose names differ but snake-case to the same string, with different payload types, both used
+        a, b = rng.choice([('IdentRaw', 'Ident_raw'), ('AB', 'A_b'), ('LParen', 'L_paren'), ('XmlTag', 'Xml_tag'), ('Ab', 'AB')])
+        if rng.random() < 0.5:
+            a, b = b, a
+        if a not in used and b not in used:
+            ta, tb = rng.sample(types, 2) if len(types) >= 2 else (types[0], types[0])
+            g.terminals.append((a, ta))
+            g.terminals.append((b, tb))
+            nm = _fresh_nt(g, 'Snake')
+            fs = ('named', [('a', ('T', a)), ('b', ('T', b))]) if rng.random() < 0.5 else ('tuple', [(True, ('T', b)), (True, ('T', a))])
+            g.nts.append(_mk('struct', nm, [(None, fs)], behaviour))
+            _hook(rng, g, ('N', nm), behaviour)
+        return
+    r = rng.random()
     if r < 0.5 and g.terminals:
         # case variant of an existing terminal
         cands = [(t, ty) for t, ty in g.terminals if any(c.isalpha() for c in t[1:])]
@@ -632,7 +647,12 @@ def layout(rng, items, style='random', shuffle_items=False):
             return ' ' if must else ''
         s = ''
         if r < 0.15:
-            s = '// ' + rng.choice(['c', 'x y z', 'é€\U0001F600', 'start struct $', '#[', '', tricky_text(rng), tricky_text(rng, 1, 3) + ' Leaf(_: $Dot)']) + '\n'
+            s = '// ' + rng.choice(['c', 'x y z', 'é€\U0001F600', 'start struct $', '#[', '', tricky_text(rng), tricky_text(rng, 1, 3) + ' Leaf(_: $Dot)',
+                                    # long (>= 48 bytes, up to a few hundred) with multi-byte characters: bytes != chars
+                                    'Repr\u00e9sentation d\'une expression entre parenth\u00e8ses \u00e9quilibr\u00e9es ' + tricky_text(rng, 0, 60),
+                                    tricky_text(rng, 48, 200),
+                                    # separators that are line breaks elsewhere (not inside a `//` comment), then token-like text
+                                    'x\u2028$Star: ()', 'y\u2029struct Zq', 'z\u0085$Zz', 'v\x0b,', 'w\x0c{', 'cr\rstart Qq']) + '\n'
         elif r < 0.5 or must:
             s = ''.join(rng.choice(UNI_SPACES) for _ in range(rng.randint(1, 3)))
         return s
@@ -832,9 +852,30 @@ def inject_violations(rng, g, k=None):
         v = rng.choice(['nostart', 'multistart', 'noterm', 'multiterm', 'undef_nt', 'undef_t', 'wrong_ns_nt',
                         'wrong_ns_t', 'clash_nt', 'clash_t', 'clash_tenum', 'clash_nt_t', 'variant_name',
                         'variant_seq', 'lower_nt', 'lower_t', 'lower_tenum', 'lower_variant', 'upper_field',
-                        'undef_start', 'start_is_terminal', 'ref_tenum_as_nt', 'ref_tenum_as_t', 'start_is_tenum'])
+                        'undef_start', 'start_is_terminal', 'ref_tenum_as_nt', 'ref_tenum_as_t', 'start_is_tenum',
+                        'start_case', 'ref_case_nt', 'ref_case_t'])
         kinds.append(v)
         nts = g.nts
+        def _case_variant(n):
+            cands = [n.lower(), n.upper(), n[0].lower() + n[1:], n.swapcase()]
+            return next((c for c in cands if c != n and c not in RUST_RESERVED), None)
+        defined_nts = {n['name'] for n in nts}
+        defined_ts = {t for t, _ in g.terminals}
+        if v == 'start_case' and nts:
+            c = _case_variant(g.start)
+            if c and c not in defined_nts:
+                g.start = c                       # `start expr` with `enum Expr`
+            continue
+        if v == 'ref_case_nt' and nts:
+            c = _case_variant(rng.choice(nts)['name'])
+            if c and c not in defined_nts:
+                _replace_sym(rng, g, ('N', c))
+            continue
+        if v == 'ref_case_t' and nts and g.terminals:
+            c = _case_variant(rng.choice(g.terminals)[0])
+            if c and c not in defined_ts:
+                _replace_sym(rng, g, ('T', c))
+            continue
         if v == 'ref_tenum_as_nt' and nts and g.tenum:
             _replace_sym(rng, g, ('N', g.tenum))          # `tok: Token` — the terminal ENUM's name where a nonterminal is due
             continue
